@@ -250,6 +250,41 @@ def directed_cases(rng, k0):
                     "convert": None, "conv_none": True},
                    {"op": "find", "fs": 1, **sel_all}]
             cases.append({"id": k0 + len(cases), "filesets": [f0, f1], "ops": ops, "directed": "year-end"})
+    # a file removed by the object's own delete() / move() and then asked for by its time (pick 0 = the first removed
+    # file); with another file left near by, and with nothing left
+    for v_, (how, leave) in enumerate([("delete", True), ("delete", False), ("move", True), ("move", False)]):
+        kind = rng.choice(["pkl", "json"])
+        sfx = SUFFIX[kind][0]
+        f0 = dict(base, name="fs0", hkind=kind, path="d0/{year}/{month}/{year}{month}{day}T{hour}{minute}{second}" + sfx)
+        f1 = dict(base, name="fs1", hkind=kind, path="d1/{year}{doy}_{hour}{minute}{second}" + sfx)
+        day = rng.choice([dt.datetime(2018, 3, 4), dt.datetime(2020, 2, 29)])
+        s1, s2 = day + dt.timedelta(hours=6), day + dt.timedelta(hours=9)
+        v = rng.randrange(1, 50) * 10
+        sel = dict(sel_all, start=us(s1 - dt.timedelta(minutes=5)), end=us(s1 + dt.timedelta(minutes=5))) if leave else sel_all
+        ops = [{"op": "write", "fs": 0, "s": us(s1), "e": us(s1), "v": v + 1, "slice": False, "fill": None, "call_args": None},
+               {"op": "write", "fs": 0, "s": us(s2), "e": us(s2), "v": v + 2, "slice": False, "fill": None, "call_args": None},
+               {"op": "find", "fs": 0, **sel_all},
+               ({"op": "delete", "fs": 0, "dry": False, **sel} if how == "delete" else
+                {"op": "move", "fs": 0, "copy": False, **sel, "target": {"kind": "fs", "fs": 1}, "convert": None, "conv_none": True}),
+               {"op": "get", "fs": 0, "pick": 0, "pre_args": 0},
+               {"op": "find", "fs": 0, **sel_all}]
+        cases.append({"id": k0 + len(cases), "filesets": [f0, f1], "ops": ops, "directed": "removed-then-asked"})
+    # filesets of ONE file (no placeholder in the path): move / copy / convert of the single file
+    for v_, (copy, conv) in enumerate([(True, None), (False, None), (False, "true"), (True, "true"), (True, 5), (False, -1)]):
+        kind = rng.choice(["pkl", "json"])
+        sfx = SUFFIX[kind][0]
+        f0 = dict(base, name="fs0", hkind=kind, path="d0/single" + sfx)
+        f1 = dict(base, name="fs1", hkind=kind, path="d1/target" + sfx + (".gz" if v_ % 2 else ""))
+        s1 = dt.datetime(2019, 7, 1, 12)
+        v = rng.randrange(1, 50) * 10
+        ops = [{"op": "write", "fs": 0, "s": us(s1), "e": us(s1 + dt.timedelta(hours=1)), "v": v + 1, "slice": True, "fill": None,
+                "call_args": None},
+               {"op": "find", "fs": 0, **sel_all},
+               {"op": "move", "fs": 0, "copy": copy, **sel_all, "target": {"kind": "fs", "fs": 1}, "convert": conv,
+                "conv_none": v_ % 2 == 0},
+               {"op": "find", "fs": 1, **sel_all},
+               {"op": "collect", "fs": 1, "slice": False, **sel_all, "call_args": None}]
+        cases.append({"id": k0 + len(cases), "filesets": [f0, f1], "ops": ops, "directed": "single-file"})
     return cases
 
 
@@ -493,6 +528,12 @@ def check_cases(ctx, cases, results):
             skipped_hyp[0] += 1
             continue
         if mobs == "TUnspecified":
+            if op.get("ghost"):
+                kinds["get_at_the_time_of_a_removed_file"] = kinds.get("get_at_the_time_of_a_removed_file", 0) + 1
+                if out["status"] == "err" and out.get("exc", "").startswith("FileNotFoundError"):
+                    ctx.fail("failing-input", f"fileset[t] at the time of a file that this object's own delete() / move() removed "
+                             f"hands the removed file to the handler ({out['exc']}): the file is gone from the tree but not from "
+                             f"the fileset; {where}", case=c, impl=out, signature="removed-file-handed-out")
             if after != before:
                 ctx.fail("failing-input", f"{name} changed the tree; {where}", case=c, impl=sorted(after.items()),
                          model=sorted(before.items()), signature=f"{name}-tree")
@@ -617,7 +658,7 @@ def run(ctx):
                        "non-trivial = the operation succeeded and changed the tree, or returned at least one payload that "
                        "was compared; distinct by (operation, tree before)")
     ctx.cov["input_distribution"] = {"histories": len(cases), "netcdf_histories_in_child_process": nnc,
-                                     "directed_year_end_histories": len(ndir),
+                                     "directed_histories": {d_: sum(1 for c in ndir if c.get("directed") == d_) for d_ in ("year-end", "removed-then-asked", "single-file")},
                                      "operations_by_kind": kinds,
                                      "handlers": {k: sum(1 for c in cases for f in c["filesets"] if f["hkind"] == k)
                                                   for k in ("pkl", "json", "csv", "nc")},
